@@ -71,6 +71,41 @@ theorem C13_lazy_history_sound (os : List (Tid × Obs)) (r : OpRec GOp GRet) (h 
     os[r.inv]? = some (r.tid, .call r.op) ∧ os[r.res]? = some (r.tid, .ret r.ret) ∧ r.inv < r.res :=
   Lazy.historyOf_sound os r h
 
+/-- Every completed operation takes effect at an instant inside its interval: there is `j` with
+    `call < j ≤ return` such that in the state reached by the first `j` actions of the run the abstract map (the
+    `(key, payload)` pairs of the unmarked linked items) answers the operation with the returned result according to
+    the sequential specification. -/
+theorem C13_lazy_effect_instant (sched : List (Tid × Act)) (s : Lazy.St) (os : List (Tid × Obs))
+    (h : Lazy.model.run Lazy.init sched = some (s, os)) (r : OpRec GOp GRet) (hr : r ∈ Lazy.historyOf os) :
+    ∃ j s1, r.inv < j ∧ j ≤ r.res ∧ Lazy.model.run Lazy.init (sched.take j) = some (s1, os.take j) ∧
+      ∃ m', map.next (Lazy.absMap s1) r.op r.ret = some m' :=
+  Lazy.lazy_effect_instant sched s os h r hr
+
+/-- Hindsight, "absent" (the classic argument for the unlocked `contains`): an `erase k` / `extract k` / `find k` /
+    `contains k` that answered `[0]` has an instant between its call and its return at which no unmarked linked item
+    carried the key `k`. -/
+theorem C13_lazy_absent_hindsight (sched : List (Tid × Act)) (s : Lazy.St) (os : List (Tid × Obs))
+    (h : Lazy.model.run Lazy.init sched = some (s, os)) (r : OpRec GOp GRet) (hr : r ∈ Lazy.historyOf os)
+    (k : Int)
+    (hop : r.op = ⟨"erase", [k]⟩ ∨ r.op = ⟨"extract", [k]⟩ ∨ r.op = ⟨"find", [k]⟩ ∨ r.op = ⟨"contains", [k]⟩)
+    (hret : r.ret = [0]) :
+    ∃ j s1, r.inv < j ∧ j ≤ r.res ∧ Lazy.model.run Lazy.init (sched.take j) = some (s1, os.take j) ∧
+      ∀ v, (k, v) ∉ Lazy.absMap s1 :=
+  Lazy.lazy_absent_hindsight sched s os h r hr k hop hret
+
+/-- Hindsight, "present": a failing `insert k _`, a `find k → [1, v]`, a `contains k → [1]`, an `erase k` /
+    `extract k → [1, v]` has an instant between its call and its return at which an unmarked linked item carried the
+    key `k`, with the payload that is reported (if one is reported). -/
+theorem C13_lazy_present_hindsight (sched : List (Tid × Act)) (s : Lazy.St) (os : List (Tid × Obs))
+    (h : Lazy.model.run Lazy.init sched = some (s, os)) (r : OpRec GOp GRet) (hr : r ∈ Lazy.historyOf os)
+    (k : Int)
+    (hop : (∃ v, r.op = ⟨"insert", [k, v]⟩ ∧ r.ret = [0]) ∨ (∃ v, r.op = ⟨"find", [k]⟩ ∧ r.ret = [1, v]) ∨
+      (r.op = ⟨"contains", [k]⟩ ∧ r.ret = [1]) ∨ (∃ v, r.op = ⟨"erase", [k]⟩ ∧ r.ret = [1, v]) ∨
+      (∃ v, r.op = ⟨"extract", [k]⟩ ∧ r.ret = [1, v])) :
+    ∃ j s1 v, r.inv < j ∧ j ≤ r.res ∧ Lazy.model.run Lazy.init (sched.take j) = some (s1, os.take j) ∧
+      (k, v) ∈ Lazy.absMap s1 ∧ ∀ w, r.ret = [1, w] → w = v :=
+  Lazy.lazy_present_hindsight sched s os h r hr k hop
+
 /-- Refinement: in a reachable state, the step at which thread `t` fixes its result `r` (the linking store, the
     marking store, the last load of a successful `validate` that finds / misses the key, the load that ends `search`
     of a `find` / `contains` in a gap or at a node that is marked already, the load `is_marked()` that reads an
@@ -102,6 +137,25 @@ theorem C13_lazy_chain_sorted (s : Lazy.St) (hreach : Lazy.model.Reachable Lazy.
       (Lazy.chainOf s).Nodup ∧ (∀ a, a ∈ Lazy.chainOf s → a < s.cnt) ∧ s.mark 0 = false ∧ s.mark 1 = false ∧
       (∀ a, s.mark a = false → s.next a = s.succ a) ∧ (∀ a, s.mark a = true → s.next a = some 0) :=
   Lazy.reachable_structure s hreach
+
+/-- Memory versus logical chain: the only nodes whose `m_pNext` word is not their logical successor are the marked
+    ones, and a marked node that is still on the chain has been marked by a thread that is between the two stores of
+    `unlink_node`: it holds the locks of the node and of the node's unmarked predecessor `p` (whose word still points
+    to the node) and keeps the node's successor in its registers.  During exactly these windows the words in memory
+    form the cycle head → … → p → node → head, and `search` of any other thread spins. -/
+theorem C13_lazy_window (s : Lazy.St) (hreach : Lazy.model.Reachable Lazy.init s) (a : Nat)
+    (ha : a ∈ Lazy.chainOf s) (hm : s.mark a = true) :
+    ∃ t o p nx r, s.pc t = .eUn o p a nx r ∧ s.next p = some a ∧ s.mark p = false ∧ s.succ a = nx :=
+  Lazy.window s hreach a ha hm
+
+/-- Under the two locks the two `is_marked()` tests of `validate` are implied by its pointer comparison
+    `pPred->m_pNext == pCur` (mark bit and pointer share one word): a thread that holds both locks and sees the
+    unmarked pointer to `pCur` in `pPred` has an unmarked `pCur`.  Dropping these tests from `validate_link` therefore
+    does not change any history; trace conformance still notices it (the loads disappear). -/
+theorem C13_lazy_validate_marks_redundant (s : Lazy.St) (hreach : Lazy.model.Reachable Lazy.init s) (t : Tid)
+    (o : Lazy.OpK) (p c : Nat) (hpc : s.pc t = .v1 o p c) (h1 : s.next p = some c) (h2 : s.mark p = false) :
+    s.mark c = false :=
+  Lazy.validate_marks_redundant s hreach t o p c hpc h1 h2
 
 /-- No key is ever present twice: in every reachable state the keys of the abstract map (= of the unmarked linked
     items) are strictly increasing, in particular duplicate-free. -/
@@ -193,6 +247,24 @@ example : (Lazy.model.run Lazy.init ins5).map (·.2) =
           (0, .ev ⟨"st", "t.lock", "0", ""⟩),       -- pCur->m_Lock.unlock()
           (0, .ev ⟨"st", "h.lock", "0", ""⟩),       -- pPred->m_Lock.unlock()
           (0, .ret [1])] := by decide +kernel
+
+/-- All operations of the model, one after the other: `update` of the key-value forms replaces the payload of an
+    existing item (under the item's lock), the intrusive `update` (`upsert_keep`) keeps the old item, `find` reads the
+    payload under the item's lock, `extract` removes it, a refused `update` answers `[0, 0]`. -/
+def seqSched : List (Tid × Act) :=
+  ins5 ++ [(0, .invoke ⟨"update", [5, 11, 1]⟩)] ++ steps 0 9 ++ [(0, .ret), (0, .invoke (fnd 5))] ++ steps 0 5 ++
+  [(0, .ret), (0, .invoke ⟨"upsert_keep", [5, 12, 1]⟩)] ++ steps 0 9 ++ [(0, .ret), (0, .invoke (fnd 5))] ++ steps 0 5 ++
+  [(0, .ret), (0, .invoke ⟨"extract", [5]⟩)] ++ steps 0 12 ++ [(0, .ret), (0, .invoke ⟨"update", [5, 13, 0]⟩)] ++
+  steps 0 9 ++ [(0, .ret), (0, .invoke ⟨"upsert_keep", [7, 14, 1]⟩)] ++ steps 0 11 ++ [(0, .ret)]
+
+set_option synthInstance.maxSize 4000 in
+example : (Lazy.model.run Lazy.init seqSched).map
+    (fun r => ((Lazy.historyOf r.2).map (fun x => (x.op.name, x.op.args, x.ret)), Lazy.absMap r.1,
+      linCheck map (Lazy.historyOf r.2))) =
+    some ([("insert", [5, 10], [1]), ("update", [5, 11, 1], [1, 0]), ("find", [5], [1, 11]),
+           ("upsert_keep", [5, 12, 1], [1, 0]), ("find", [5], [1, 11]), ("extract", [5], [1, 11]),
+           ("update", [5, 13, 0], [0, 0]), ("upsert_keep", [7, 14, 1], [1, 1])], [(7, 14)], true) := by
+  decide +kernel
 
 /-- An insert races with the erase of its predecessor: the validation fails because `pPred` was marked meanwhile, and
     the insert retries.  Thread 1 (`insert 7`) finishes `search` with `pos = ( n1, t )`; thread 0 erases key 5 (node
